@@ -174,8 +174,10 @@ def plan(pid: str, tier: str, seed: int) -> dict:
                 ("diamond", "firstof", "quorumall", "multimerge", "failbranch", "firstofallfail", "mmfail")]
                + [("orsplit", {"AnyOrder": "FALSE", "MaxEarly": 2}, {})]
                + ([] if quick else [("orfail", {"AnyOrder": "TRUE", "MaxEarly": 1}, {})])
-               + ([] if quick else [(p, {"AnyOrder": "TRUE", "MaxEarly": 2, "MaxWithhold": 1}, {"depth": 70}) for p in
-                                    ("diamond", "firstof", "quorum", "quorumfail", "quorumimpossible", "deep")]),
+               # (MaxEarly 2 + MaxWithhold 1 exceeds 30 M states on the quorum programs: one of the two there, both on the small ones)
+               + ([] if quick else [(p, {"AnyOrder": "TRUE", "MaxEarly": 2, "MaxWithhold": 1}, {"depth": 70}) for p in ("diamond", "firstof")]
+                  + [(p, {"AnyOrder": "TRUE", "MaxEarly": 2}, {"depth": 70}) for p in ("quorum", "quorumfail", "quorumimpossible", "deep")]
+                  + [(p, {"AnyOrder": "TRUE", "MaxEarly": 1, "MaxWithhold": 1}, {"depth": 60}) for p in ("quorum", "quorumfail")]),
         )
     if pid == "C05":
         progs = [p for p in core + extra if p["name"] != "stopped"] + [PR.by_name(n) for n in SYN] + \
